@@ -6,7 +6,8 @@
    oracle evaluated on real copy.Copy runs inside a chroot jail with a sentinel tree. *)
 From Coq Require Import List NArith Bool.
 From FS Require Import Sx Model.Path Model.Fs Model.RootPath Model.CopyFs Model.CopyFsSpec
-  Proofs.Lex Proofs.PathP Proofs.CleanP Proofs.RootPathP Proofs.RootPathWitnessP Proofs.CopyContainedP.
+  Proofs.Lex Proofs.PathP Proofs.CleanP Proofs.RootPathP Proofs.RootPathWitnessP Proofs.CopyContainedP
+  Proofs.CopyFsWitnessP.
 Import ListNotations.
 
 (* Whatever the argument (any number of "..", empty components, dots, separators), the
@@ -125,3 +126,60 @@ Theorem copy_rec_contained :
     forall i, (i < f_next f0)%N -> ~ inside_dir f0 dr i -> get (s_fs s') i = get f0 i.
 Proof. exact copy_rec_contained_proof. Qed.
 Print Assumptions copy_rec_contained.
+
+(* Copy (copy_top): argument resolution through fs.RootPath, MkdirAll, prepareTargetDir, the loop
+   over the (wildcard) sources, copier.copy with the hard-link map (forgetLinkSources) and the
+   deferred fixCreatedParentDirs (stillBelow) — the code as repaired after the escapes this proof
+   found (corpus/C14/hardlink-path-reresolved.case, created-dir-path-replaced.case).
+   For every well-formed file system, every option set of the model (follow-links, always-replace,
+   dir-contents, chown, utime, mode), every source / destination argument and EVERY list of wildcard
+   matches: of the inodes that existed before, only directories at or below dstRoot can have
+   changed.  Hence nothing outside dstRoot changes: no outside file or directory (content, metadata,
+   entries), no inode hard-linked from outside, not dstRoot's own entry in its parent.
+   srcRoot and dstRoot are clean absolute paths whose components are real directories; srcRoot is
+   dstRoot or lies outside it; no NUL byte in the source arguments. *)
+Theorem copy_contained :
+  forall fuel c o scs src dcs dst matches f0 dr sr s' res,
+    fs_wf f0 ->
+    forallb name_ok dcs = true -> chain f0 (c_root c) dcs dr -> (length dcs < rfuel)%nat ->
+    forallb name_ok scs = true -> chain f0 (c_root c) scs sr -> (length scs < rfuel)%nat ->
+    (scs = dcs \/ ~ inside_dir f0 dr sr) ->
+    has_nul src = false -> (forall l, matches = Some l -> forallb (fun m => negb (has_nul m)) l = true) ->
+    copy_top fuel c o (render scs) src (render dcs) dst matches (cst_init f0) = (s', res) ->
+    forall i, (i < f_next f0)%N -> ~ inside_dir f0 dr i -> get (s_fs s') i = get f0 i.
+Proof. exact copy_contained_proof. Qed.
+Print Assumptions copy_contained.
+
+(* A symlink met at a target name "<dstRoot>/cs/x" (cs real directories) is never traversed:
+   ensureEmptyFileTarget (non-directory source) unlinks it — the name is gone, the link inode and
+   whatever it points to untouched — and copyDirectoryOnly (directory source) reports the conflict
+   without touching anything.  (That no later call goes through such a link either is part of
+   copy_contained: the outside is unchanged whatever the links point to.) *)
+Theorem dest_symlink_never_followed_partial :
+  forall c f0 dr dcs cs x d i t m,
+    fs_wf f0 ->
+    forallb name_ok dcs = true -> chain f0 (c_root c) dcs dr -> (length dcs < rfuel)%nat ->
+    forallb name_ok cs = true -> name_ok x = true -> chain f0 dr cs d ->
+    blookup x (dents f0 d) = Some i -> get f0 i = Some {| i_kind := KLink t; i_meta := m |} ->
+    (forall s' r, ensure_empty_file_target c (render (dcs ++ cs ++ [x])) (cst_init f0) = (s', r) -> r = inl tt ->
+        blookup x (dents (s_fs s') d) = None /\ get (s_fs s') i = get f0 i) /\
+    (forall fi ow s' r, copy_directory_only c (render (dcs ++ cs ++ [x])) fi ow (cst_init f0) = (s', r) ->
+        (exists e, r = inr e) /\ s_fs s' = f0).
+Proof.
+  intros c f0 dr dcs cs x d i t m W H1 H2 H3 H4 H5 H6 H7 H8. split.
+  - intros s' r. exact (dest_symlink_unlinked c f0 dr dcs cs x d i t m W H1 H2 H3 H4 H5 H6 H7 H8 s' r).
+  - intros fi ow s' r. exact (dest_symlink_reported c f0 dr dcs cs x d i t m W H1 H2 H3 H4 H5 H6 H7 H8 fi ow s' r).
+Qed.
+Print Assumptions dest_symlink_never_followed_partial.
+
+(* non-vacuity: the witness of the hard-link-path escape on the model of the repaired code.
+   /o/h (inode 3, mode 0600) is outside; Copy("/s", "?/?" = p/h q/h r/g, "/d", "/") succeeds, the
+   destination holds g (a fresh regular file, not a link to the symlink) and h (the symlink), and
+   /o/h is untouched. *)
+Example copy_examples :
+  snd wC_run = inl tt
+  /\ resolve_ino ctx_init wC [47;111;47;104] false = inl 3
+  /\ get (s_fs (fst wC_run)) 3 = get wC 3
+  /\ map (fun e => fst (fst e)) (tree_below 8 (s_fs (fst wC_run)) 5 []) = [[103]; [104]]
+  /\ resolve_ino ctx_init (s_fs (fst wC_run)) [47;100;47;103] true = inl 13.
+Proof. vm_compute. repeat split. Qed.
